@@ -572,6 +572,31 @@ def _run_ref(case, ctx):
     ctx.check("ref.fit-predict", [int(v) for v in p.index] == [cutoff + h for h in fh] and _same(p.values, pr.values, 1e-7),
               "composite:%s:forecast-differs-from-composition-of-parts" % spec[0], "composite forecast differs from the composition of its parts after fit",
               spec=zoo.describe(spec), got=p.values.tolist(), expected=pr.values.tolist())
+    if spec[0] == "pipeline":
+        # the pipeline's own transformer interface (used when a pipeline is a step of another pipeline): the chain of the fitted transformers
+        # in order, and its inverse in reverse order
+        try:
+            zt = y.copy()
+            for t in ref.ts:
+                zt = t.transform(zt)
+            back = zt.copy()
+            for t in reversed(ref.ts):
+                back = t.inverse_transform(back)
+            okr = True
+        except Exception as e:  # noqa
+            okr = False
+            ctx.tag("reference-failed:" + type(e).__name__)
+        if okr:
+            ok, zr = ctx.call("pipeline:transform-exception", real.transform, y.copy())
+            if ok:
+                ctx.check("ref.fit-predict", list(zr.index) == list(zt.index) and _same(np.asarray(zr, dtype=float), np.asarray(zt, dtype=float), 1e-7), "pipeline:transform-not-the-chain-of-its-transformers",
+                          "pipeline.transform differs from applying its fitted transformers in order", spec=zoo.describe(spec))
+                ok, br = ctx.call("pipeline:inverse_transform-exception", real.inverse_transform, zr.copy())
+                if ok:
+                    ctx.check("ref.fit-predict", _same(np.asarray(br, dtype=float), np.asarray(back, dtype=float), 1e-7), "pipeline:inverse_transform-not-the-inverse-chain-in-reverse-order",
+                              "pipeline.inverse_transform differs from applying the inverse transforms of its fitted transformers in reverse order", spec=zoo.describe(spec),
+                              got=np.asarray(br, dtype=float)[:4].tolist(), expected=np.asarray(back, dtype=float)[:4].tolist(), original=y.values[:4].tolist())
+                ctx.tag("pipeline:transformer-interface")
     pos = n
     for up, size in case["updates"]:
         batch = full.iloc[pos:pos + size]
